@@ -88,3 +88,65 @@ void logFrames(Out& o, const char* k, const std::vector<std::vector<uint8_t>>& f
         o.bytes(f.data(), f.size());
     o.endArr();
 }
+
+// the status tracker as the judge sees it: every entry (device, packet, interfaces), counts and lookups
+void snapStatus(Out& o, const Status& st, const json& probe)
+{
+    // the non-const accessors give the same objects as the const ones
+    Status& nc = const_cast<Status&>(st);
+    bool ncok = true;
+    for (size_t k = 0; k < st.getDeviceStatusCount(); ++k)
+    {
+        const DeviceStatus& ds = st.getDeviceStatus(k);
+        DeviceStatus& nds = nc.getDeviceStatus(k);
+        ncok = ncok && &nds == &ds && &nds.getPacket() == &ds.getPacket();
+        for (size_t j = 0; j < ds.getInterfaceStatusCount(); ++j)
+            ncok = ncok && &nds.getInterfaceStatus(j) == &ds.getInterfaceStatus(j) &&
+                   &nds.getInterfaceStatus(j).getPacket() == &ds.getInterfaceStatus(j).getPacket();
+    }
+    o.kv("ncok", ncok);
+    o.arr("snap");
+    for (size_t k = 0; k < st.getDeviceStatusCount(); ++k)
+    {
+        const DeviceStatus& ds = st.getDeviceStatus(k);
+        o.obj().kv("dev", ds.getPacket().getDeviceId());
+        o.key("pkt");
+        snapPacket(o, ds.getPacket());
+        o.arr("ifs");
+        for (size_t j = 0; j < ds.getInterfaceStatusCount(); ++j)
+        {
+            const InterfaceStatus& is = ds.getInterfaceStatus(j);
+            o.obj().be("id", is.getInterfaceId(), 4);
+            o.key("pkt");
+            snapPacket(o, is.getPacket());
+            o.end();
+        }
+        o.endArr();
+        // lookups by interface id on this device
+        o.arr("iflookup");
+        if (probe.contains("ifs"))
+            for (const auto& i : probe["ifs"])
+                o.obj().bytes("id", bytesOf(i)).kv("idx", ds.getIndexByInterfaceId(static_cast<uint32_t>(beValue(i)))).end();
+        o.endArr();
+        o.end();
+    }
+    o.endArr();
+    o.kv("count", st.getDeviceStatusCount());
+    o.arr("devlookup");
+    if (probe.contains("devs"))
+        for (const auto& d : probe["devs"])
+            o.obj().kv("dev", d.get<int>()).kv("idx", st.getIndexByDeviceId(static_cast<uint16_t>(d.get<int>()))).end();
+    o.endArr();
+}
+
+// the decoder's pending table through the read-only hook
+void logPending(Out& o, const char* key, const Decoder& dec)
+{
+    o.arr(key);
+    for (const auto& p : dec.verifPending())
+    {
+        o.obj().kv("dev", p.deviceId).kv("st", p.streamId).kv("seg", p.segmentType >> 2).kv("ver", p.version);
+        o.kv("mt", p.messageType).kv("cur", p.lastCounter).bytes("buf", p.buffer).end();
+    }
+    o.endArr();
+}
